@@ -42,6 +42,8 @@ def script(rng, mode, ivs, nops):
                     ops.append(['count', a, b]); ops.append(['find', a, b]); touched = True
         elif r < 0.25:
             ops.append(['isempty']); ops.append(['len'])
+            if rng.random() < 0.5:
+                ops.append(['setcov'])          # a cached coverage (possibly 0) must not influence count / find
         elif r < 0.28:
             a, b = G.rand_iv(rng, mode, 'any'), G.rand_iv(rng, mode, 'any')
             if cur and rng.random() < 0.5:
@@ -67,6 +69,18 @@ def gen(rng, tier):
     for _ in range(n):
         mode = G.pick_mode(rng)
         ivs = G.rand_ivs(rng, mode, rng.choice([0, 1, 1, 2, 3, 4, 6, 9]), 'le')
+        if rng.random() < 0.06:
+            # only zero-length intervals (insertion sites): they cover nothing and still overlap every query around them
+            pts = [G.coord(rng, mode) for _k in range(rng.randint(1, 4))]
+            ivs = [(x, x) for x in pts]
+            ops = [['setcov']]
+            for x in pts:
+                lo, hi = max(0, x - rng.randint(1, 3)), min(G.width(mode), x + rng.randint(1, 3))
+                if lo < hi:
+                    ops += [['count', lo, hi], ['find', lo, hi]]
+            ops += [['merge'], ['setcov'], ['count', 0, G.width(mode)], ['find', 0, G.width(mode)]]
+            yield Case(G.case(mode, ivs, ops), True, mode)
+            continue
         ops, touched = script(rng, mode, ivs, rng.randint(3, 14))
         yield Case(G.case(mode, ivs, ops), touched, mode)
     if tier == 'thorough':
